@@ -2,6 +2,7 @@
    of the C10 statements: [resolution] (what a resolved tree is), [node_res]/[later_operand] (node by
    node, by path), [sem] (boolean reading), [std_attrs], [no_andor], [clean]. *)
 Require Import Base Decimal Tree GenTree GenVisitors Visitor Eq Resolver TreeInd.
+Require EqProofs.
 From Coq Require Import Lia.
 
 Lemma vis_unfold tg ah t ctx ps pre s :
@@ -715,9 +716,12 @@ Section Again.
   Qed.
 End Again.
 
-Lemma node_res_clean tg pfx n n' : node_res tg pfx n n' -> std_node n -> clean_node n'.
+(* every node of a result is clean, whatever the input held: the copy recomputes the default of an
+   implicit degree / force and normalises an explicit boost force, and normalising is idempotent.
+   No constructor invariant is needed on the input. *)
+Lemma node_res_clean_any tg pfx n n' : node_res tg pfx n n' -> clean_node n'.
 Proof.
-  intros [H1 [H2 [_ [_ [_ [_ [H7 [_ H9]]]]]]]] Hs. split; [exact H2|]. split; [exact H7|].
+  intros [H1 [H2 [_ [_ [_ [_ [H7 [_ H9]]]]]]]]. split; [exact H2|]. split; [exact H7|].
   destruct (is_unknown n) eqn:Hu.
   - destruct H1 as [k [_ Hk]]. destruct n' as [[]| |[]| | | | |[]|[]|[]|]; try exact I; destruct k; discriminate.
   - destruct H1 as [c [Hc [Hk Ha]]]. rewrite clone_item_node in Hc. inversion Hc; subst c; clear Hc.
@@ -730,19 +734,63 @@ Proof.
     + specialize (Ha ADegree). simpl in Ha. inversion Ha. reflexivity.
     + exact I.
     + specialize (Ha AForce). simpl in Ha. inversion Ha. reflexivity.
-    + specialize (Ha AForce). simpl in Ha. inversion Ha. rewrite Hs. exact Hs.
+    + specialize (Ha AForce). simpl in Ha. inversion Ha. apply EqProofs.dec_normalize_idem.
 Qed.
 
-Theorem resolve_idempotent tg ah tg' ah' t r :
-  resolve tg ah t = Some r -> std_attrs t -> valid_target tg' = true -> resolve tg' ah' r = Some r.
+(* the guarded form used by other files *)
+Lemma node_res_clean tg pfx n n' : node_res tg pfx n n' -> std_node n -> clean_node n'.
+Proof. intros H _. exact (node_res_clean_any _ _ _ _ H). Qed.
+
+Theorem resolve_idempotent_unguarded tg ah tg' ah' t r :
+  resolve tg ah t = Some r -> valid_target tg' = true -> resolve tg' ah' r = Some r.
 Proof.
-  intros H Hstd Hv'.
+  intros H Hv'.
   assert (Hv : valid_target tg = true) by (unfold resolve in H; destruct (valid_target tg); [reflexivity|discriminate]).
   pose proof (resolution_pointwise tg ah Hv t r (resolve_resolution _ _ _ _ H)) as Hpw.
   assert (Hc : clean r).
   { intros p n' Hp. specialize (Hpw p). rewrite Hp in Hpw. destruct (subtree_at t p) as [n|] eqn:Ht; [|contradiction].
-    eapply node_res_clean; [exact Hpw|]. apply (Hstd p n Ht). }
+    eapply node_res_clean_any; exact Hpw. }
   unfold resolve. rewrite Hv'. destruct (vis_fix tg' ah' r Hc None [] [] []) as [s' Hx]. rewrite Hx. reflexivity.
+Qed.
+
+(* the former statement (constructor invariant on the input): a corollary *)
+Theorem resolve_idempotent tg ah tg' ah' t r :
+  resolve tg ah t = Some r -> std_attrs t -> valid_target tg' = true -> resolve tg' ah' r = Some r.
+Proof. intros H _. exact (resolve_idempotent_unguarded tg ah tg' ah' t r H). Qed.
+
+(* ---------------------------------------------------------------- content of the copied nodes *)
+(* the default copy keeps every content attribute of a node exactly when the node is as the
+   constructors build it: [std_node] is the narrowest guard of "every other node keeps its content" *)
+Lemma clone_attrs_iff n :
+  (forall a, get_attr (clone_node n) a = get_attr n a) <-> std_node n.
+Proof.
+  split.
+  - intros Ha.
+    destruct n as [k m v|m n e|k m e|m lo hi il ih|m x d i|m x d i|m e f i|k m ops|k m a|k m a i|m];
+      try exact I; destruct i; simpl; try exact I.
+    + specialize (Ha ADegree). simpl in Ha. inversion Ha. reflexivity.
+    + specialize (Ha ADegree). simpl in Ha. inversion Ha. reflexivity.
+    + specialize (Ha AForce). simpl in Ha. inversion Ha. reflexivity.
+    + specialize (Ha AForce). simpl in Ha. inversion Ha as [Hf]. rewrite Hf. exact Hf.
+  - intros Hs a.
+    destruct n as [k m v|m n e|k m e|m lo hi il ih|m x d i|m x d i|m e f i|k m ops|k m a0|k m a0 i|m];
+      try destruct i; destruct a; simpl in *; rewrite ?Hs; reflexivity.
+Qed.
+
+(* at every path: a node that is not an implicit operation keeps its class, and keeps its content
+   attributes iff it is [std_node] *)
+Theorem resolve_content tg ah t r : resolve tg ah t = Some r ->
+  forall p n n', subtree_at t p = Some n -> subtree_at r p = Some n' -> is_unknown n = false ->
+    cls_of n' = cls_of n /\ ((forall a, get_attr n' a = get_attr n a) <-> std_node n).
+Proof.
+  intros H p n n' Hn Hn' Hu.
+  assert (Hv : valid_target tg = true) by (unfold resolve in H; destruct (valid_target tg); [reflexivity|discriminate]).
+  pose proof (resolution_pointwise tg ah Hv t r (resolve_resolution _ _ _ _ H) p) as Hpw.
+  rewrite Hn, Hn' in Hpw. destruct Hpw as [H1 _]. rewrite Hu in H1.
+  destruct H1 as [c [Hc [Hk Ha]]]. rewrite clone_item_node in Hc. inversion Hc; subst c; clear Hc.
+  split.
+  - rewrite Hk. destruct n as [| | | |? ? ? []|? ? ? []|? ? ? []| | | |]; reflexivity.
+  - rewrite <- clone_attrs_iff. split; intros Hx a; [rewrite <- Ha|rewrite Ha]; apply Hx.
 Qed.
 
 (* ---------------------------------------------------------------- glue for the statements *)
